@@ -7,14 +7,36 @@ WS = [" ", "  ", "\t", "\n", "　", "  ", " \r\n", "\x1c", " ", "\n    ", "\n
 TERMS = ["a", "foo", "b2", "x*", "?y", "2024-01-01T12:30", "T12:30:45", "xT12:30", "éa", "AND1", "ANDx",
          "\\AND", "a\\ b", "\\:x", "a/b", "a-b", "a+b", "a'b", "a\"b", "<", "a<b", "1", "42", ".", ",",
          "=a", "a=", "*", "T12", "١٢", "x\\\\", "&&", "||", "!", "NOTx", "to", "T٠٠:٠٠",
-         "foo\\ ", "b\\\t", "c\\\u3000", "20", "30:45", "05"]
+         "foo\\ ", "b\\\t", "c\\\u3000", "20", "30:45", "05",
+         # decomposed / compatibility characters and capitals: an entry point that normalises or folds its input
+         # shifts every offset or changes the text
+         "cafe\u0301", "A\u030a", "\ufb01n", "x\u00b2", "\uff41", "Foo", "\u1e9e"]
 PHRASES = ['"a"', '"a b"', '""', '"a \\" b"', '"l1\nl2"', '"AND"', '"/"', '"\\\\"', '"a:b"', "\"it's\"",
-           '"a\rb"', '"a\x0cb"', '"a\u2028b"', '"a\x85b"', '"a\x1cb"']
+           '"a\rb"', '"a\x0cb"', '"a\u2028b"', '"a\x85b"', '"a\x1cb"', '"e\u0301 \ufb01"', '"A B"']
 REGEXES = ["/a/", "/a b/", "//", "/a\\/b/", '/"/', "/[a-z]+/", "/a\rb/", "/a\u2029b/"]
 NUMS = ["", "1", "2", "0.5", ".5", "2.0", "007", "10", "100", "0.0000001", "1.50", "0", "0.0", "00",
         "1234567890123456789012345678901", "1.0000000000000000000000000001"]
 BADNUMS = [".", "1.2.3", "..", "1.", "1..2"]
-FIELDS = ["f", "title", "a.b", "n.o.h", "f_1", "é", "xT12", "T12", "1", "a\\:b", "*", "count-10", "utc+01", "10", "k-12"]
+FIELDS = ["f", "title", "a.b", "n.o.h", "f_1", "é", "xT12", "T12", "1", "a\\:b", "*", "count-10", "utc+01", "10", "k-12",
+          "e\u0301", "Title"]
+
+
+def huge_numerals():
+    """numerals beyond every bound a numeric library may have (decimal's default exponent range is +-999999);
+    too long to be evaluated by the Coq model in reasonable time: judged by the Python oracles only"""
+    n = 1000001
+    return ["a^" + "1" * n, "a~" + "9" * n, "a^1" + "0" * n, "a^." + "0" * n + "1", "a~0." + "0" * n + "10",
+            "(a b)^" + "0" * n + "2", "f:a^" + "7" * n + "." + "0" * 10 + " b~1." + "0" * n + "5"]
+
+
+def canon_numeral(txt):
+    """exact, unbounded canonical spelling of a plain decimal numeral ([0-9.]+ with at most one dot)"""
+    if txt.count(".") > 1 or not any(c.isdigit() for c in txt):
+        return txt
+    ip, _, fp = txt.partition(".")
+    ip = ip.lstrip("0") or "0"
+    fp = fp.rstrip("0")
+    return ip + ("." + fp if fp else "")
 
 
 class QGen:
